@@ -544,6 +544,33 @@ func c08Node(r *Result, rng *rand.Rand, thorough bool) {
 			itx.Sign(fresh.key)
 			hostile(fmt.Sprintf("a correctly signed JoinRequest whose public key is spelled %s", style), "join-spelling", &bnet.JoinRequest{InternalTransaction: itx})
 		}
+		// correctly self-signed membership requests of a stranger with a transaction type outside
+		// {PEER_ADD, PEER_REMOVE}: accepted into the pool like any other; the network must survive reaching
+		// consensus on it and committing the block that carries it
+		for _, ty := range []hg.TransactionType{2, 255} {
+			fresh := newParticipants(rng, 1)[0]
+			itx := hg.NewInternalTransaction(ty, *fresh.peer)
+			itx.Sign(fresh.key)
+			what := fmt.Sprintf("a correctly signed JoinRequest with transaction type %d", uint8(ty))
+			hostile(what, "join-type", &bnet.JoinRequest{InternalTransaction: itx})
+			blocksBefore := len(other.app.bodies)
+			for k := 0; k < 150 && len(other.app.bodies) < blocksBefore+3; k++ {
+				a, b := nodes[rng.Intn(3)], nodes[rng.Intn(3)]
+				if a == b {
+					continue
+				}
+				if k%5 == 0 {
+					b.n.VerifCore().AddTransactions([][]byte{[]byte(fmt.Sprintf("u%d-%d", ty, k))})
+				}
+				if err := validExchange(a, b); err != nil {
+					r.Violate("impl-violation", fmt.Sprintf("after %s the network cannot go on to commit it: %v", what, err), "stuck:commit:join-type", map[string]string{"what": what})
+					break
+				}
+				b.n.VerifCore().ProcessSigPool()
+			}
+			r.Inc("unknown_type_requests_followed_through_consensus", 1)
+			r.Inc("blocks_committed_after_unknown_type_request", len(other.app.bodies)-blocksBefore)
+		}
 		hostile("a FastForwardRequest", "ff-request", &bnet.FastForwardRequest{FromID: 77})
 		hostile("an unknown command", "unknown-cmd", &struct{ X int }{1})
 		// hostile responses through core: sync response and fast-forward response
